@@ -399,7 +399,21 @@ func hostileWorker(a Args) {
 			time.Sleep(2 * time.Millisecond)
 		}
 		if inBatch%8 == 0 || strings.HasPrefix(in.fam, "corpus") {
-			if p := cur.probe(x.Hdr, i); p != "" && problems < 20 {
+			p := cur.probe(x.Hdr, i)
+			if p != "" {
+				// Reproduce before judging: the same frame on a fresh connection,
+				// then the probe again (a poll-mode server occasionally stalls a
+				// connection by itself, see DESIGN.md 12.2 on hslam/netpoll).
+				cur.end(false)
+				cur = newConn()
+				inBatch = 0
+				cur.push(in.frame)
+				if p2 := cur.probe(x.Hdr, i); p2 == "" {
+					fams["probe_failures_not_reproduced"]++
+					p = ""
+				}
+			}
+			if p != "" && problems < 20 {
 				problems++
 				mon.Emit(mon.Result{T: "case", Engine: "hostile", Case: fmt.Sprintf("server/%s/mode%d/%s", x.Hdr, x.Mode, in.fam), Verdict: mon.Violated, Prop: "C08",
 					What: fmt.Sprintf("after hostile frame #%d (%s) on the same connection: %s", i, in.fam, p), FSig: "C08/server/same-conn-probe/" + x.Hdr,
@@ -700,8 +714,8 @@ func hostileSupervisor(a Args) {
 			}
 			f.Close()
 		}
-		if done && err == nil {
-			break
+		if done {
+			break // (a race-detector build exits 66 when it saw races; the done marker is what counts)
 		}
 		if !strings.Contains(string(mustRead(errp)), "panic:") && !strings.Contains(string(mustRead(errp)), "fatal error:") && !strings.Contains(string(mustRead(errp)), "SIGSEGV") {
 			// the worker ended without a Go crash report (killed from outside,
